@@ -25,7 +25,7 @@ ALL_CB = ["on_open", "on_message", "on_data", "on_ping", "on_pong", "on_error", 
 
 def bounds(tier):
     if tier == "quick":
-        return ("36 endings x {no ping thread, ping thread} x {plain, TLS}; preemption bound 1 at synchronisation points for ping-thread scenarios; closer thread: "
+        return ("37 endings x {no ping thread, ping thread} x {plain, TLS}; preemption bound 1 at synchronisation points for ping-thread scenarios; closer thread: "
                 "1 preemption at every synchronisation point (all scenarios) and at every executed line (one scenario)")
     return ("same scenarios; preemption bound 2 at synchronisation points; closer thread: 1 preemption at every executed library line for every closer scenario, 2 at synchronisation points")
 
@@ -73,6 +73,7 @@ def endings():
               dict(close=(1001, "going away"), err=False, second=dict(close=(None, None), err=True, noopen=True))))
     E.append(("refused", dict(refused=True), dict(close=(None, None), err=True, noopen=True)))
     E.append(("handshake-404", dict(hs="status:404"), dict(close=(None, None), err=True, noopen=True)))
+    E.append(("handshake-403-short-body", dict(hs="short-body:403"), dict(close=(None, None), err=True, noopen=True)))
     E.append(("handshake-garbage", dict(hs="garbage"), dict(close=(None, None), err=True, noopen=True)))
     E.append(("handshake-eof", dict(hs="eof"), dict(close=(None, None), err=True, noopen=True)))
     for cb in ("on_open", "on_message", "on_data", "on_ping", "on_pong"):
